@@ -249,7 +249,9 @@ def gen_case(r, hostile):
     whole = st
     if hostile and r.random() < 0.05:
         whole = r.choice([None, [], [st], 'settings', 5, True, {}, 0])
-    return {'settings': whole, 'files': files, 'link': r.random() < 0.5, 'hostile': hostile}
+    import yaml
+    # the case is stored as the TEXT of its settings file (JSON-safe, replayable; absolute paths as the placeholder @ABS@)
+    return {'yaml': yaml.safe_dump(whole, sort_keys=False, allow_unicode=True), 'files': files, 'link': r.random() < 0.5, 'hostile': hostile}
 
 
 HAND_WRITTEN = [
@@ -277,7 +279,7 @@ def hand_written_cases():
         files = {}
         for p in present:
             files[p] = RULES_OK if p.endswith('merchants.rules') else VIEWS_OK if p.endswith('views.rules') else LEGACY_OK if p.endswith('categories.csv') else CSV_TEXT
-        out.append({'settings': yaml.safe_load(text), 'text': text, 'files': files, 'link': False, 'hostile': False, 'hand_written': True})
+        out.append({'yaml': text, 'files': files, 'link': False, 'hostile': False, 'hand_written': True})
     return out
 
 
@@ -314,11 +316,9 @@ def materialise(case):
                 f.write(text)
         except OSError:
             pass                                                   # (a path through a missing directory or a dangling link: the file is simply absent)
-    st = absify(case['settings'], root)
-    text = case['text'] if 'text' in case else yaml.safe_dump(st, sort_keys=False, allow_unicode=True)
     with open(os.path.join(b, 'config', 'settings.yaml'), 'w', encoding='utf-8') as f:
-        f.write(text)
-    return root, os.path.join(b, 'config'), st
+        f.write(case['yaml'].replace('@ABS@', root + '/b'))
+    return root, os.path.join(b, 'config'), None
 
 
 # ---------------------------------------------------------------- the implementation, canonicalised
@@ -602,10 +602,10 @@ def locality_oracle(r, case, loaded, ip, root1):
     fails = []
     if ip is None or 'ok' not in ip:
         return fails
-    symbolic = case['settings']          # (absolute paths still as the placeholder: each run has its own temporary root)
+    import yaml
+    symbolic = yaml.safe_load(case['yaml'])          # (absolute paths still as the placeholder: each run has its own temporary root)
     for what, edited, idx in locality_variants(r, symbolic):
-        c2 = dict(case, settings=edited)
-        c2.pop('text', None)
+        c2 = dict(case, yaml=yaml.safe_dump(edited, sort_keys=False, allow_unicode=True))
         root, cfgdir, _ = materialise(c2)
         try:
             ip2 = impl_plan(cfgdir, True)
